@@ -26,12 +26,13 @@ byte for byte by the component `fec`) — has that law for every ratio the FEC l
 
 `Lawful` is restricted to the accepted ratios (`d + p ≤ 256`).  The bound is sharp for this code
 (`C07_rsNew_range_sharp`: at 2/255 the nodes 0 and 256 collide and two present shards do not
-determine the data), and without it the law is unsatisfiable by ANY codec (no `[302, 2]` MDS code over
-256 letters: the 256 codewords `(0, b)` differ pairwise outside position 0, so a codeword `(1, 0)`
-would have to meet a different one of them at each of the other 301 positions — not formalised).
+determine the data), and without it the law is unsatisfiable by ANY codec
+(`C07_unrestricted_law_impossible`: no `[302, 2]` MDS code over 256 letters), i.e. the hypothesis
+`Lawful C` in its earlier, unrestricted form made the theorems of `Props/C07` vacuous.
 -/
 import KcpVerif.Props.C07
 import KcpVerif.Lemmas.RSBridge
+import KcpVerif.Lemmas.LawRange
 
 namespace KcpVerif.Props
 open KcpVerif.Gen KcpVerif.Fec KcpVerif.Lemmas.FecSpec
@@ -120,6 +121,13 @@ theorem C07_rsNew_range_sharp :
     present.length = 2 + 255 ∧ 2 ≤ present.count true ∧
     (rsNew 2 255).recon (mask present ([[7], [9]] ++ (rsNew 2 255).enc [[7], [9]])) = none := by
   decide +kernel
+
+/-- The list-level MDS law quantified over ALL ratios (`LawRange.LawfulAll`, the earlier form of
+    `Lawful`) is satisfied by no codec constructor whatsoever — at 2/300 with one-byte shards it would
+    be a `[302, 2]` MDS code over 256 letters (pigeonhole).  Hence the restriction of `Lawful` to the
+    ratios the FEC constructors accept is necessary, not a convenience. -/
+theorem C07_unrestricted_law_impossible (C : CodecNew) : ¬ LawRange.LawfulAll C :=
+  LawRange.lawfulAll_impossible C
 
 /-! ## the decoder theorems for the executable code: no hypothesis about the code is left -/
 
